@@ -90,7 +90,7 @@ func (s scenario) world() *world.World {
 			"server_chain.block.proposal.max_wait_time": "3s",
 		},
 		SCSet: map[string]interface{}{
-			"storagesc.challenge_generation_gap":   s.ChalGap,
+			"storagesc.challenge_generation_gap":    s.ChalGap,
 			"storagesc.block_reward.trigger_period": s.RewardGap,
 		},
 	})
@@ -119,17 +119,17 @@ func nodeID(mc *miner.Chain, i int) string { return minerIDs[i] }
 
 // blockMeta is what node A says about a block it generated, next to the serialised block itself.
 type blockMeta struct {
-	Round      int64          `json:"round"`
-	Codec      string         `json:"codec"`
-	File       string         `json:"file"`
-	Seed       int64          `json:"seed"`
-	Hash       string         `json:"hash"`
-	Root       string         `json:"root"`    // A's state root after the block
-	Changes    int            `json:"changes"` // A's change count
-	Txns       []txnClaim     `json:"txns"`
-	Pool       []poolItemMeta `json:"pool"`
-	GenErrors  []string       `json:"gen_errors,omitempty"`
-	Generated  bool           `json:"generated"`
+	Round     int64          `json:"round"`
+	Codec     string         `json:"codec"`
+	File      string         `json:"file"`
+	Seed      int64          `json:"seed"`
+	Hash      string         `json:"hash"`
+	Root      string         `json:"root"`    // A's state root after the block
+	Changes   int            `json:"changes"` // A's change count
+	Txns      []txnClaim     `json:"txns"`
+	Pool      []poolItemMeta `json:"pool"`
+	GenErrors []string       `json:"gen_errors,omitempty"`
+	Generated bool           `json:"generated"`
 }
 
 type txnClaim struct {
@@ -166,15 +166,15 @@ func stateOf(st util.MerklePatriciaTrieI, id string) (int64, currency.Coin) {
 }
 
 type poolGen struct {
-	w    *world.World
-	mc   *miner.Chain
-	s    scenario
-	r    *mon.Rand
-	now  common.Timestamp
-	lfb  *block.Block
-	prev *block.Block
-	old  []*transaction.Transaction // transactions included in earlier blocks (for replays)
-	heavy bool                      // prefer contract calls (they cost more than transfers)
+	w     *world.World
+	mc    *miner.Chain
+	s     scenario
+	r     *mon.Rand
+	now   common.Timestamp
+	lfb   *block.Block
+	prev  *block.Block
+	old   []*transaction.Transaction // transactions included in earlier blocks (for replays)
+	heavy bool                       // prefer contract calls (they cost more than transfers)
 }
 
 func (g *poolGen) minFee(t *transaction.Transaction) currency.Coin {
